@@ -160,7 +160,12 @@ def section_fn(c):
     return lambda x: c[0] + c[1] * x + c[2] * x * x
 
 
+PER = {'type': 'per'}      # ONE dictionary object for every periodic side of every discretisation (users write `bc = {'type': 'per'}` once)
+
+
 def bc_for_impl(bc):
+    if bc.get('type') == 'per' and len(bc) == 1:
+        return PER
     b = dict(bc)
     if 'prim' in b:
         b['prim'] = [np.array([x]) if False else x for x in b['prim']]
@@ -175,9 +180,9 @@ def build(cfg):
     elif m == 'burgers':
         mod = impl.burgers.model()
     elif m == 'sw':
-        mod = impl.shallowwater.shallowwater1d(g=cfg['g'])
+        mod = impl.pool('sw', g=cfg['g'])
     elif m == 'euler':
-        mod = impl.euler.euler1d(gamma=cfg['gamma'])
+        mod = impl.pool('euler1d', gamma=cfg['gamma'])
     else:
         mod = impl.euler.nozzle(section_fn(cfg['section']), gamma=cfg['gamma'])
     msh = make_mesh(cfg['mesh'])
